@@ -422,7 +422,7 @@ def handleOps (op : String) (args : List String) (impl : Impl) : Option Ans :=
           | "min" => rest.head?.toList
           | "count" => [toString rest.length]
           | "nth" => (rest.drop j).head?.toList
-          | "rest" => rest
+          | "rest" | "index" => rest
           | _ => fl.reverse
         verdict [("reads_the_listed_table", got == (if want.isEmpty then "-" else ",".intercalate want))]
       | .other w => "FAIL:" ++ w
